@@ -12,7 +12,8 @@ import (
 // C01 — a change rewrites exactly the code that is an instance of its '-' pattern.
 
 var c01 = &modelCheck{
-	Prop: "C01",
+	Prop:         "C01",
+	NestedChoice: 12,
 	Opts: modelOpts{
 		Mine:         gen.MineOpts{MaxHoles: 3, MaxDots: 2},
 		MaxHostLines: 220,
